@@ -66,6 +66,10 @@ func BuildStructCodec(p CodecBuilder, registry CodecRegistry, typ reflect.Type, 
 			return nil, fmt.Errorf("could not parse plenc tag on field %d %s of %s. %w", i, sf.Name, typ.Name(), err)
 		}
 
+		if index < 0 {
+			return nil, fmt.Errorf("negative index %d in plenc tag on field %d %s of %s", index, i, sf.Name, typ.Name())
+		}
+
 		field := &c.fields[count]
 		count++
 		field.offset = sf.Offset
